@@ -85,10 +85,10 @@ def run(tier, rng, C):
     for i in range(n):
         r = i % 6
         inv, names, incl = G.include_graph_inv(
-            rng, cyclic=(r == 5), refs=0.3, missing=0.08 if r == 4 else 0.0, conflicts=False,
+            rng, cyclic=(r == 5), refs=0.3, missing=(0.08 if i % 12 == 4 else 0.35) if r == 4 else 0.0, conflicts=False,
             sel_override=0.5 if r in (1, 2) else 0.0, sel_relative=0.7 if r == 3 else 0.0,
             sel_alias=0.5 if r in (0, 2) else 0.0)
-        if r == 4 and rng.random() < 0.5:
+        if r == 4 and rng.random() < 0.7:
             inv.ignore = True
         for np_ in sorted(inv.nodes):
             cid = C.case_id('n', len(cases))
